@@ -183,6 +183,7 @@ pub fn reset() {
     });
     disarm();
     reset_ticks();
+    disarm_drop_panic();
 }
 
 #[repr(C)]
@@ -293,7 +294,7 @@ impl Hash for Tracked {
 impl Drop for Tracked {
     fn drop(&mut self) {
         let (id, val) = (self.id, self.val);
-        with(|l| {
+        let by_container = with(|l| {
             let who = l.who;
             match l.entries.get_mut(id as usize) {
                 Some(e) if e.val == val => {
@@ -306,6 +307,7 @@ impl Drop for Tracked {
                                 St::Dropped => l.anomalies.push(Anomaly::DoubleDrop { id, st, who }),
                                 St::Yielded | St::Gone => l.anomalies.push(Anomaly::ContainerDroppedYielded { id, st }),
                             }
+                            true
                         }
                         Who::Consumer => {
                             e.consumer_drops += 1;
@@ -314,12 +316,66 @@ impl Drop for Tracked {
                                 St::Gone => l.anomalies.push(Anomaly::DoubleDrop { id, st, who }),
                                 St::Live | St::Dropped => l.anomalies.push(Anomaly::ConsumerDroppedUnowned { id, st }),
                             }
+                            false
                         }
                     }
                 }
-                _ => l.anomalies.push(Anomaly::DropUnknown { id, val }),
+                _ => {
+                    l.anomalies.push(Anomaly::DropUnknown { id, val });
+                    false
+                }
             }
-        });
+        })
+        .unwrap_or(false);
+        // the destructor-panic switch (off unless a droppanic-* check armed it): the ledger is already updated
+        // (the element counts as dropped once its destructor was entered) and no borrow is held here
+        if by_container && DROP_PANIC_ID.try_with(|b| b.get() == id).unwrap_or(false) {
+            let _ = DROP_PANIC_ID.try_with(|b| b.set(u32::MAX));
+            if std::thread::panicking() {
+                // a second panic would abort the process: stay silent, remember it
+                let _ = DROP_PANIC_STATE.try_with(|s| s.set(2));
+            } else {
+                let _ = DROP_PANIC_STATE.try_with(|s| s.set(1));
+                panic!("{}", DROP_PANIC);
+            }
+        }
+    }
+}
+
+// ------------------------------------------------------------------------------------------------
+// destructor-panic switch: the element with the chosen id panics in its own `Drop`, once, when it is dropped by
+// the container (never when the consumer disposes of it, never while the thread is already panicking)
+// ------------------------------------------------------------------------------------------------
+
+thread_local! {
+    static DROP_PANIC_ID: std::cell::Cell<u32> = std::cell::Cell::new(u32::MAX);
+    /// 0 = not reached, 1 = panicked, 2 = reached while the thread was already panicking (suppressed)
+    static DROP_PANIC_STATE: std::cell::Cell<u8> = std::cell::Cell::new(0);
+}
+
+/// The message of an element destructor's panic.
+pub const DROP_PANIC: &str = "c18-element-destructor-panic";
+
+#[derive(Clone, Copy, Debug, PartialEq, Eq)]
+pub enum DropPanic {
+    NotReached,
+    Panicked,
+    /// the chosen element was dropped by the container while another panic was unwinding: no second panic
+    Suppressed,
+}
+
+/// From now on the element registered as `id` panics when the container drops it (once).
+pub fn arm_drop_panic(id: u32) {
+    DROP_PANIC_ID.with(|b| b.set(id));
+    DROP_PANIC_STATE.with(|s| s.set(0));
+}
+/// Switch off; what happened since `arm_drop_panic`.
+pub fn disarm_drop_panic() -> DropPanic {
+    let _ = DROP_PANIC_ID.try_with(|b| b.set(u32::MAX));
+    match DROP_PANIC_STATE.try_with(|s| s.replace(0)).unwrap_or(0) {
+        1 => DropPanic::Panicked,
+        2 => DropPanic::Suppressed,
+        _ => DropPanic::NotReached,
     }
 }
 
